@@ -175,6 +175,9 @@ func startModules() error {
 	reports := make(chan *report)
 	execCnt := 0
 	reportCnt := 0
+	// A module whose start failed is offline again and would look ready, while
+	// its error report may still be waiting behind the reports of other modules.
+	attempted := make(map[*Module]struct{})
 
 	for {
 		waiting := 0
@@ -186,6 +189,10 @@ func startModules() error {
 			case statusWaiting:
 				waiting++
 			case statusReady:
+				if _, ok := attempted[m]; ok {
+					continue
+				}
+				attempted[m] = struct{}{}
 				execCnt++
 				m.start(reports)
 				// DEBUG SNIPPET
